@@ -221,6 +221,14 @@ impl<'a> PGen<'a> {
         }
     }
 
+    /// an optional difficulty label for a physical statement (time labels nested in difficulty-labelled
+    /// blocks and statements must still count; difficulty never affects time)
+    fn diff_prefix(&mut self, block_stmt: bool) -> String {
+        if !self.rng.chance(1, if block_stmt { 3 } else { 6 }) { return String::new(); }
+        self.bump(if block_stmt { "difficulty_labelled_block" } else { "difficulty_labelled_stmt" });
+        format!("{{\"{}\"}}: ", *self.rng.pick(&["01", "0", "23", "0123", "*", "1-2", "4567", "012"]))
+    }
+
     fn block(&mut self, out: &mut String, depth: usize, budget: &mut i32) {
         let n = self.rng.range(0, 5);
         for _ in 0..n {
@@ -231,12 +239,14 @@ impl<'a> PGen<'a> {
                 7..=11 => {
                     let id = self.next_id; self.next_id += 1;
                     self.bump("marker");
-                    Self::ind(out, depth); writeln!(out, "ins_900({});", id).unwrap();
+                    let dl = self.diff_prefix(false);
+                    Self::ind(out, depth); writeln!(out, "{}ins_900({});", dl, id).unwrap();
                     self.expect.push((id, self.cur));
                 },
                 12 => {
                     self.bump("multi_instr_stmt");
-                    Self::ind(out, depth); writeln!(out, "$REG[-10001] = $REG[-10002] * 2 + $REG[-10003] * {};", self.rng.range(2, 9)).unwrap();
+                    let dl = self.diff_prefix(false);
+                    Self::ind(out, depth); writeln!(out, "{}$REG[-10001] = $REG[-10002] * 2 + $REG[-10003] * {};", dl, self.rng.range(2, 9)).unwrap();
                 },
                 13 => {
                     let k = self.next_lab; self.next_lab += 1;
@@ -252,6 +262,8 @@ impl<'a> PGen<'a> {
                     Self::ind(out, depth); writeln!(out, "}}").unwrap();
                 },
                 _ if depth < 4 => {
+                    let dl = self.diff_prefix(true);
+                    Self::ind(out, depth); out.push_str(&dl);
                     match self.rng.below(7) {
                         0 => { self.bump("block"); Self::ind(out, depth); writeln!(out, "{{").unwrap(); self.block(out, depth + 1, budget); Self::ind(out, depth); writeln!(out, "}}").unwrap(); },
                         1 => { self.bump("loop"); Self::ind(out, depth); writeln!(out, "loop {{").unwrap(); self.block(out, depth + 1, budget); Self::ind(out, depth); writeln!(out, "}}").unwrap(); },
@@ -328,6 +340,7 @@ fn run_pass(text: &str, literal_only: bool) -> Option<(String, Result<Option<Vec
         });
         match front { Ok(Ok(())) => {}, _ => return None }
     }
+    if passes::resolution::compute_diff_label_masks(&mut file, truth.ctx()).is_err() { return None; }
     let body = first_body(&file)?;
     let emitter = truth.emitter();
     let res = catch(|| passes::semantics::time_and_difficulty::run(body, &emitter));
@@ -425,7 +438,11 @@ fn run_compile(text: &str, expect: Option<&[(i64, i32)]>, expect_err: bool) -> O
 // ---------------------------------------------------------------------------------------------
 // DECOMP
 
-struct Script { times: Vec<i32>, /* per instruction: Some((target index, time arg)) for jumps */ jumps: Vec<Option<(usize, i32)>> }
+struct Script {
+    times: Vec<i32>,
+    /* per instruction: Some((target index, time arg)) for jumps */ jumps: Vec<Option<(usize, i32)>>,
+    /* per instruction: the stored difficulty mask byte */ masks: Vec<u8>,
+}
 
 fn script_source(s: &Script) -> String {
     // every instruction at time 0; labels L<i> before instruction i, L<n> at the end
@@ -443,7 +460,7 @@ fn build_script(s: &Script) -> Option<truth::OldeEclFile> {
     {
         let sub = ecl.subs.values_mut().next()?;
         if sub.instrs.len() != s.times.len() { return None; }
-        for (i, t) in s.times.iter().enumerate() { sub.instrs[i].time = *t; }
+        for (i, t) in s.times.iter().enumerate() { sub.instrs[i].time = *t; sub.instrs[i].difficulty = s.masks[i]; }
     }
     Some(ecl)
 }
@@ -454,13 +471,14 @@ fn fmt_ast(file: &ast::ScriptFile) -> Option<String> {
     String::from_utf8(buf).ok()
 }
 
-fn decompile(ecl: &truth::OldeEclFile, blocks: bool) -> Result<Option<ast::ScriptFile>, String> {
+fn decompile(ecl: &truth::OldeEclFile, blocks: bool, diff_switches: bool) -> Result<Option<ast::ScriptFile>, String> {
     catch(|| {
         let mut scope = truth::Builder::new().capture_diagnostics(true).build();
         let mut truth = scope.truth();
         truth.apply_mapfile_str(MAPFILE, GAME).ok()?;
         let mut opts = truth::DecompileOptions::new();
         opts.blocks = blocks;
+        opts.diff_switches = diff_switches;
         let mut t = truth.validate_defs().ok()?;
         t.decompile_olde_ecl(GAME, ecl, &opts).ok()
     })
@@ -474,7 +492,8 @@ fn run_decomp(s: &Script, src_note: &str) -> Option<String> {
     for i in instrs.iter() { let last = *offsets.last().unwrap(); offsets.push(last + 12 + i.args_blob.len() as u64); }
     let idx_of = |off: u64| offsets.iter().position(|o| *o == off);
 
-    let res = decompile(&ecl, false);
+    // the label-emission model does not cover instruction merging: no block / difficulty-switch recognition here
+    let res = decompile(&ecl, false, false);
     let obs: Result<Option<Vec<String>>, String> = match &res {
         Ok(Some(file)) => {
             let body = first_body(file)?;
@@ -511,8 +530,9 @@ fn run_decomp(s: &Script, src_note: &str) -> Option<String> {
     };
     if let Err(p) = &res { println!("ORACLE-FAIL\tpanic while decompiling: {}\t{}", oneline(p), src_note); }
     // oracle: decompile (with and without block recognition) -> text -> compile gives the same times and arguments
+    // (difficulty-switch recognition, which merges adjacent per-difficulty variants, is on here)
     for blocks in [false, true] {
-        let file = match decompile(&ecl, blocks) { Ok(Some(f)) => f, Ok(None) => { println!("ORACLE-FAIL\tdecompile error (blocks={})\t{}", blocks, src_note); continue; }, Err(_) => continue };
+        let file = match decompile(&ecl, blocks, true) { Ok(Some(f)) => f, Ok(None) => { println!("ORACLE-FAIL\tdecompile error (blocks={})\t{}", blocks, src_note); continue; }, Err(_) => continue };
         let text = match fmt_ast(&file) { Some(t) => t, None => { println!("ORACLE-FAIL\tcannot format the decompiled script\t{}", src_note); continue; } };
         // two label statements with one name: the decompiled script cannot mean what the binary does
         if !blocks {
@@ -526,9 +546,9 @@ fn run_decomp(s: &Script, src_note: &str) -> Option<String> {
         }
         match compile_text(&text) {
             Ok(Some(re)) => {
-                let a: Vec<(i32, u16, &[u8])> = instrs.iter().map(|i| (i.time, i.opcode, &i.args_blob[..])).collect();
+                let a: Vec<(i32, u16, u8, &[u8])> = instrs.iter().map(|i| (i.time, i.opcode, i.difficulty, &i.args_blob[..])).collect();
                 let sub = re.subs.values().next()?;
-                let b: Vec<(i32, u16, &[u8])> = sub.instrs.iter().map(|i| (i.time, i.opcode, &i.args_blob[..])).collect();
+                let b: Vec<(i32, u16, u8, &[u8])> = sub.instrs.iter().map(|i| (i.time, i.opcode, i.difficulty, &i.args_blob[..])).collect();
                 if a != b {
                     let ta: Vec<i32> = a.iter().map(|x| x.0).collect(); let tb: Vec<i32> = b.iter().map(|x| x.0).collect();
                     println!("ORACLE-FAIL\tdecompile+recompile changes the script (blocks={}): times {:?} -> {:?}{}\t{}\t{}", blocks, ta, tb, if ta == tb { " (arguments differ)" } else { "" }, src_note, oneline(&text));
@@ -563,7 +583,7 @@ fn gen_script(rng: &mut Rng, hist: &mut std::collections::BTreeMap<&'static str,
         let k = if w[0] < 0 && w[1] >= 0 { "neg_to_nonneg" } else if w[1] < w[0] { "decrease" } else if w[1] > w[0] { "increase" } else { "equal" };
         *hist.entry(k).or_insert(0) += 1;
     }
-    let mut jumps = vec![None; n];
+    let mut jumps: Vec<Option<(usize, i32)>> = vec![None; n];
     for i in 0..n {
         if rng.chance(1, 3) {
             let tgt = rng.below(n as u64 + 1) as usize;
@@ -574,7 +594,172 @@ fn gen_script(rng: &mut Rng, hist: &mut std::collections::BTreeMap<&'static str,
             jumps[i] = Some((tgt, ta));
         }
     }
-    Script { times, jumps }
+    // runs of per-difficulty variants: adjacent instructions whose masks split the low 4 or all 8 difficulty
+    // bits into contiguous ranges (what recognize_diff_switch merges), with the stored time changing inside
+    // the run or not
+    let mut masks = vec![0xffu8; n];
+    if n >= 2 && rng.chance(1, 2) {
+        let k = (rng.range(2, 5) as usize).min(n);
+        let start = rng.below((n - k + 1) as u64) as usize;
+        let width = if rng.chance(1, 2) { 4u32 } else { 8u32 };
+        // k contiguous non-empty ranges of [0, width)
+        let mut cuts: Vec<u32> = vec![];
+        while cuts.len() < k - 1 { let c = rng.range(1, width as i64 - 1) as u32; if !cuts.contains(&c) { cuts.push(c); } }
+        cuts.sort(); cuts.insert(0, 0); cuts.push(width);
+        for j in 0..k {
+            let m: u32 = (cuts[j]..cuts[j + 1]).map(|b| 1u32 << b).sum();
+            masks[start + j] = m as u8;
+            jumps[start + j] = None;
+        }
+        // the first two variants share a time in most runs; later ones keep the generated (often different) times
+        if rng.chance(3, 4) { times[start + 1] = times[start]; }
+        if k >= 3 && rng.chance(1, 3) { times[start + 2] = times[start]; }
+        let same = (1..k).all(|j| times[start + j] == times[start]);
+        *hist.entry(if same { "variant_run_same_time" } else if times[start + 1] == times[start] { "variant_run_time_changes_after_2nd" } else { "variant_run_time_changes_after_1st" }).or_insert(0) += 1;
+    }
+    Script { times, jumps, masks }
+}
+
+// ---------------------------------------------------------------------------------------------
+// FORMATS: stored times through every instruction format: source -> compile -> write -> read -> decompile ->
+// format -> parse -> compile -> write; the two binaries must be identical, the read-back times the intended ones
+
+#[derive(Clone, Copy, PartialEq)]
+enum Kind { Anm, OldeEcl, StackEcl, Std, Msg }
+
+struct Fmt { name: &'static str, kind: Kind, game: Game, head: &'static str, open: &'static str, close: &'static str, pseudo: &'static str, blob_len: usize, bits16: bool }
+
+const ANM_HEAD: &str = r#"entry { path: "subdir/file.png", has_data: false, img_width: 512, img_height: 512, img_format: 3, offset_x: 0, offset_y: 0, colorkey: 0, memory_priority: 0, low_res_scale: false, sprites: { sprite0: {id: 0, x: 0.0, y: 0.0, w: 512.0, h: 480.0}, }, }"#;
+const STD06_HEAD: &str = r#"meta { unknown: 0, stage_name: "dm", bgm: [ {path: "bgm/th08_08.mid", name: "dm"}, {path: "bgm/th08_09.mid", name: "dm"}, {path: " ", name: " "}, {path: " ", name: " "}, ], objects: {}, instances: [], }"#;
+const STD12_HEAD: &str = r#"meta { unknown: 0, anm_path: "stage01.anm", objects: {}, instances: [], }"#;
+const MSG06_HEAD: &str = r#"meta { table: { 0: {script: "main"}, } }"#;
+const MSG09_HEAD: &str = r#"meta { table: { 0: {script: "main", flags: 256}, } }"#;
+
+const FORMATS: [Fmt; 15] = [
+    Fmt { name: "anm06", kind: Kind::Anm, game: Game::Th06, head: ANM_HEAD, open: "script script0 {", close: "}", pseudo: "", blob_len: 4, bits16: true },
+    Fmt { name: "anm07", kind: Kind::Anm, game: Game::Th07, head: ANM_HEAD, open: "script script0 {", close: "}", pseudo: "", blob_len: 4, bits16: true },
+    Fmt { name: "anm10", kind: Kind::Anm, game: Game::Th10, head: ANM_HEAD, open: "script script0 {", close: "}", pseudo: "", blob_len: 4, bits16: true },
+    Fmt { name: "anm12", kind: Kind::Anm, game: Game::Th12, head: ANM_HEAD, open: "script script0 {", close: "}", pseudo: "", blob_len: 4, bits16: true },
+    Fmt { name: "ecl06", kind: Kind::OldeEcl, game: Game::Th06, head: "script timeline0 {}", open: "void sub0() {", close: "}", pseudo: "", blob_len: 4, bits16: false },
+    Fmt { name: "timeline06", kind: Kind::OldeEcl, game: Game::Th06, head: "void sub0() {}", open: "script timeline0 {", close: "}", pseudo: "@arg0=7, ", blob_len: 4, bits16: true },
+    Fmt { name: "ecl08", kind: Kind::OldeEcl, game: Game::Th08, head: "script timeline0 {}", open: "void sub0() {", close: "}", pseudo: "", blob_len: 4, bits16: false },
+    Fmt { name: "timeline08", kind: Kind::OldeEcl, game: Game::Th08, head: "void sub0() {}", open: "script timeline0 {", close: "}", pseudo: "", blob_len: 4, bits16: false },
+    Fmt { name: "ecl10", kind: Kind::StackEcl, game: Game::Th10, head: "meta { ecli: [], anim: [], }", open: "void main() {", close: "}", pseudo: "", blob_len: 4, bits16: false },
+    Fmt { name: "std06", kind: Kind::Std, game: Game::Th06, head: STD06_HEAD, open: "script main {", close: "}", pseudo: "", blob_len: 12, bits16: false },
+    Fmt { name: "std08", kind: Kind::Std, game: Game::Th08, head: STD06_HEAD, open: "script main {", close: "}", pseudo: "", blob_len: 12, bits16: false },
+    Fmt { name: "std12", kind: Kind::Std, game: Game::Th12, head: STD12_HEAD, open: "script main {", close: "}", pseudo: "", blob_len: 4, bits16: false },
+    Fmt { name: "msg06", kind: Kind::Msg, game: Game::Th06, head: MSG06_HEAD, open: "script main {", close: "}", pseudo: "", blob_len: 4, bits16: true },
+    Fmt { name: "msg09", kind: Kind::Msg, game: Game::Th09, head: MSG09_HEAD, open: "script main {", close: "}", pseudo: "", blob_len: 4, bits16: true },
+    Fmt { name: "msg12", kind: Kind::Msg, game: Game::Th12, head: MSG09_HEAD, open: "script main {", close: "}", pseudo: "", blob_len: 4, bits16: true },
+];
+
+fn fmt_source(f: &Fmt, times: &[i32]) -> String {
+    let mut t = format!("{}\n{}\n", f.head, f.open);
+    for (i, tm) in times.iter().enumerate() {
+        let mut blob = format!("{:02x}{:02x}0000", i & 0xff, (i >> 8) & 0xff);
+        while blob.len() < 2 * f.blob_len { blob.push_str("00"); }
+        writeln!(t, "{}:\n    ins_200({}@blob=\"{}\");", tm, f.pseudo, blob).unwrap();
+    }
+    t.push_str(f.close); t.push('\n');
+    t
+}
+
+/// compile `text` in format `f` and write it to `path`; the stored times as they are read back from the file
+fn fmt_compile_write_read(f: &Fmt, text: &str, path: &std::path::Path) -> Result<Option<Vec<i32>>, String> {
+    catch(|| {
+        let mut scope = truth::Builder::new().capture_diagnostics(true).build();
+        let mut truth = scope.truth();
+        let ast = truth.parse::<ast::ScriptFile>("<input>", text.as_bytes()).ok()?.value;
+        let mut t = truth.validate_defs().ok()?;
+        let g = f.game;
+        let times = |instrs: &[truth::llir::RawInstr]| instrs.iter().map(|i| i.time).collect::<Vec<i32>>();
+        match f.kind {
+            Kind::Anm => { let w = t.compile_anm(g, &ast).ok()?; let a = t.finalize_anm(g, w).ok()?; t.write_anm(g, path, &a).ok()?;
+                           let r = t.read_anm(g, path, false).ok()?; Some(times(&r.entries.get(0)?.scripts.values().next()?.instrs)) },
+            Kind::OldeEcl => { let a = t.compile_olde_ecl(g, &ast).ok()?; t.write_olde_ecl(g, path, &a).ok()?;
+                               let r = t.read_olde_ecl(g, path).ok()?;
+                               let sub: Vec<i32> = r.subs.values().next().map(|x| times(&x.instrs)).unwrap_or_default();
+                               let tl: Vec<i32> = r.timelines.get(0).map(|x| times(&x.instrs)).unwrap_or_default();
+                               Some(if sub.is_empty() { tl } else { sub }) },
+            Kind::StackEcl => { let a = t.compile_stack_ecl(g, &ast).ok()?; t.write_stack_ecl(g, path, &a).ok()?;
+                                let r = t.read_stack_ecl(g, path).ok()?; Some(times(&r.subs.values().next()?.instrs)) },
+            Kind::Std => { let a = t.compile_std(g, &ast).ok()?; t.write_std(g, path, &a).ok()?;
+                           let r = t.read_std(g, path).ok()?; Some(times(&r.script.instrs)) },
+            Kind::Msg => { let a = t.compile_msg(g, LanguageKey::Msg, &ast).ok()?; t.write_msg(g, LanguageKey::Msg, path, &a).ok()?;
+                           let r = t.read_msg(g, LanguageKey::Msg, path).ok()?; Some(times(&r.scripts.values().next()?.instrs)) },
+        }
+    })
+}
+
+fn fmt_read_decompile(f: &Fmt, path: &std::path::Path) -> Result<Option<ast::ScriptFile>, String> {
+    catch(|| {
+        let mut scope = truth::Builder::new().capture_diagnostics(true).build();
+        let mut truth = scope.truth();
+        let opts = truth::DecompileOptions::new();
+        let mut t = truth.validate_defs().ok()?;
+        let g = f.game;
+        match f.kind {
+            Kind::Anm => { let r = t.read_anm(g, path, false).ok()?; t.decompile_anm(g, &r, &opts).ok() },
+            Kind::OldeEcl => { let r = t.read_olde_ecl(g, path).ok()?; t.decompile_olde_ecl(g, &r, &opts).ok() },
+            Kind::StackEcl => { let r = t.read_stack_ecl(g, path).ok()?; t.decompile_stack_ecl(g, &r, &opts).ok() },
+            Kind::Std => { let r = t.read_std(g, path).ok()?; t.decompile_std(g, &r, &opts).ok() },
+            Kind::Msg => { let r = t.read_msg(g, LanguageKey::Msg, path).ok()?; t.decompile_msg(g, LanguageKey::Msg, &r, &opts).ok() },
+        }
+    })
+}
+
+fn run_format(f: &Fmt, times: &[i32]) -> Option<String> {
+    let note = format!("times={:?} jumps=[] fmt={}", times, f.name);
+    let dir = work_dir("c13");
+    let (pa, pb) = (dir.join(format!("fmt_{}_a.bin", f.name)), dir.join(format!("fmt_{}_b.bin", f.name)));
+    let src = fmt_source(f, times);
+    let back = match fmt_compile_write_read(f, &src, &pa) {
+        Ok(Some(b)) => b,
+        Ok(None) => { println!("ORACLE-FAIL\tcannot compile/write/read a script of blob instructions ({})\t{}", f.name, note); return None; },
+        Err(p) => { println!("ORACLE-FAIL\tpanic while compiling/writing/reading ({}): {}\t{}", f.name, oneline(&p), note); return None; },
+    };
+    if back != times { println!("ORACLE-FAIL\tstored times are read back differently ({}): {:?}\t{}", f.name, back, note); }
+    let dec = fmt_read_decompile(f, &pa);
+    let obs = match &dec {
+        Ok(Some(file)) => {
+            // the body with the instructions
+            let mut best: Option<&ast::Block> = None;
+            for item in &file.items {
+                let b = match &item.value { ast::Item::Func(ast::ItemFunc { code: Some(code), .. }) => code, ast::Item::Script { code, .. } => code, _ => continue };
+                if best.map(|x| x.0.len() < b.0.len()).unwrap_or(true) { best = Some(b); }
+            }
+            let mut es = vec![]; let mut k = 0i64;
+            for st in &best?.0 {
+                match &st.kind {
+                    ast::StmtKind::NoInstruction | ast::StmtKind::ScopeEnd(_) => {},
+                    ast::StmtKind::AbsTimeLabel(v) => es.push(format!("EAbs {}", z(v.value as i64))),
+                    ast::StmtKind::RelTimeLabel { delta, .. } => match &delta.value {
+                        ast::Expr::LitInt { value, .. } => es.push(format!("ERel {}", z(*value as i64))),
+                        _ => es.push("ERel 0 (* non-literal *)".to_string()),
+                    },
+                    ast::StmtKind::Label(_) => es.push("ELabel (-1)".to_string()),
+                    _ => { es.push(format!("EInstr {}", k)); k += 1; },
+                }
+            }
+            // oracle: format -> parse -> compile -> write gives the same bytes
+            match fmt_ast(file) {
+                Some(text) => match fmt_compile_write_read(f, &text, &pb) {
+                    Ok(Some(_)) => {
+                        let (a, b) = (std::fs::read(&pa).unwrap_or_default(), std::fs::read(&pb).unwrap_or_default());
+                        if a != b { println!("ORACLE-FAIL\tdecompile+recompile changes the binary ({})\t{}\t{}", f.name, note, oneline(&text)); }
+                    },
+                    Ok(None) => println!("ORACLE-FAIL\tdecompiled script does not compile ({})\t{}\t{}", f.name, note, oneline(&text)),
+                    Err(p) => println!("ORACLE-FAIL\tpanic while recompiling ({}): {}\t{}", f.name, oneline(&p), note),
+                },
+                None => println!("ORACLE-FAIL\tcannot format the decompiled script ({})\t{}", f.name, note),
+            }
+            format!("(IOk ([{}], []))", es.join("; "))
+        },
+        Ok(None) => { println!("ORACLE-FAIL\tdecompile error ({})\t{}", f.name, note); "IErr".to_string() },
+        Err(p) => { println!("ORACLE-FAIL\tpanic while decompiling ({}): {}\t{}", f.name, oneline(p), note); "IPanic".to_string() },
+    };
+    let ts: Vec<String> = times.iter().map(|t| z(*t as i64)).collect();
+    Some(format!("DECOMP\tKDecomp [{}] [] {}\t{}", ts.join("; "), obs, note))
 }
 
 // ---------------------------------------------------------------------------------------------
@@ -619,8 +804,20 @@ fn main() {
             for _ in 0..n {
                 let mut r = rng.fork();
                 let s = gen_script(&mut r, &mut hist);
-                let note = format!("times={:?} jumps={:?}", s.times, s.jumps);
+                let note = format!("times={:?} jumps={:?} masks={:?}", s.times, s.jumps, s.masks);
                 match run_decomp(&s, &note) { Some(l) => println!("{}", l), None => rejected += 1 }
+            }
+        },
+        Some("formats") => {
+            for _ in 0..n {
+                let mut r = rng.fork();
+                let s = gen_script(&mut r, &mut hist);
+                for f in FORMATS.iter() {
+                    // within the format's time field; not the terminator look-alikes of the 16-bit formats
+                    let times: Vec<i32> = s.times.iter().map(|t| if f.bits16 { *t as i16 as i32 } else { *t }).collect();
+                    *hist.entry(f.name).or_insert(0) += 1;
+                    match run_format(f, &times) { Some(l) => println!("{}", l), None => rejected += 1 }
+                }
             }
         },
         Some("text") => {
@@ -639,11 +836,21 @@ fn main() {
                 let (i, rest) = e.split_once(':').expect("i:tgt@time"); let (tgt, ta) = rest.split_once('@').expect("i:tgt@time");
                 jumps[i.parse::<usize>().unwrap()] = Some((tgt.parse().unwrap(), ta.parse().unwrap()));
             }
-            let s = Script { times, jumps };
-            let note = format!("times={:?} jumps={:?}", s.times, s.jumps);
-            match run_decomp(&s, &note) { Some(l) => println!("{}", l), None => println!("REJECTED\tbuild") }
+            // optional: `masks: m0 m1 ...` and `fmt: <format name>` lines
+            let mut masks = vec![0xffu8; times.len()]; let mut fmt_name: Option<String> = None;
+            for l in lines {
+                if let Some(m) = l.strip_prefix("masks:") { let v: Vec<u8> = m.split_whitespace().filter_map(|x| x.parse().ok()).collect(); if v.len() == times.len() { masks = v; } }
+                if let Some(f) = l.strip_prefix("fmt:") { fmt_name = Some(f.trim().to_string()); }
+            }
+            if let Some(name) = fmt_name {
+                match FORMATS.iter().find(|f| f.name == name) { Some(f) => match run_format(f, &times) { Some(l) => println!("{}", l), None => println!("REJECTED\tformat") }, None => println!("REJECTED\tunknown format") }
+            } else {
+                let s = Script { times, jumps, masks };
+                let note = format!("times={:?} jumps={:?} masks={:?}", s.times, s.jumps, s.masks);
+                match run_decomp(&s, &note) { Some(l) => println!("{}", l), None => println!("REJECTED\tbuild") }
+            }
         },
-        _ => { eprintln!("usage: c13 pass <n> | compile <n> | decomp <n> | text <file> | times <file>"); std::process::exit(2); },
+        _ => { eprintln!("usage: c13 pass <n> | compile <n> | decomp <n> | formats <n> | text <file> | times <file>"); std::process::exit(2); },
     }
     println!("STATS\trejected={}\thist={:?}", rejected, hist);
 }
